@@ -217,7 +217,19 @@ reg(
     "Trusted: float64 Richardson differences with two step sizes (their disagreement is the error bar); JAX AD of everything but the repo's custom rules.",
 )
 
-NOT_BUILT_REASON = "check under construction in this session; not yet registered"
+reg(
+    "C01",
+    "accuracy monitor: jitted adaptive solves (save_at, terminal values, save-every-step) and fixed-grid refinement ladders on IVPs with closed-form / DOP853 solutions; constructed tiny-remainder final times; error/tolerance ratio and observed order judged",
+    "Seven IVPs (incl. a second-order ODE, Lotka-Volterra, van der Pol) x factorisation x calibration x strategy x TS0/TS1 x nu 1..6; "
+    "per configuration several solves with tolerances in [1e-9,1e-2] (atol=rtol and atol!=rtol), dt0 log-uniform or from both "
+    "initialisers, four checkpoint layouts, clip on/off, and final times placed 1e-2..1e-12 after a natural step end (from a "
+    "save-every-step pass). Oracle: |mean-u| <= 50 (atol+rtol|u|) at every requested time. Ladders h..h/8: observed order >= "
+    "nu+1-0.75 in the clean regime, >= nu-0.5 elsewhere (stated rule).",
+    "Trusted: closed forms / SciPy DOP853 at 1e-13. Three method-level regimes where the statement is stricter than the method are "
+    "known findings D6, D15, D16 (the 50-digit EKF reproduces the repo's numbers there).",
+)
+
+NOT_BUILT_REASON = "not claimed"
 
 
 def main():
